@@ -4,7 +4,10 @@ import TTV.Generated.Stream
 `TimestampingStreamResult`, `StreamFailFast` and `StreamToQueue` (testtools/testresult/real.py) as trees over
 recording sinks.  The `test_tags` argument is an *object*: events carry a reference into a small heap of tag
 sets, so that aliasing (the same set object handed to several targets) and mutation are expressible; the code
-as it is (after the `StreamTagger` fix) only ever allocates.  Import-free apart from the family's modules. -/
+as it is (after the `StreamTagger` fix) only ever allocates.  `None` ("this event says nothing about tags") and the
+empty set ("no tags now") are different values everywhere in this model; the one place that merges them is
+`StreamTagger.status`, which hands on `test_tags or None`: an EMPTY resulting set travels on as `None` (behaviour pinned by
+the suite, `TestStreamTagger.test_discarding`; see `taggerOut`).  Import-free apart from the family's modules. -/
 namespace TTV.Stream.Deco
 open TTV.Stream
 
@@ -87,6 +90,11 @@ def fillNow : Option Ts → Option Ts
 def tagged (h : Heap) (e : EventOf Ref) (add discard : List Nat) : List Nat :=
   norm ((((deref h e.tags).getD []) ++ add).filter fun x => !discard.contains x)
 
+/-- `StreamTagger.status`: what is handed on as `test_tags` - `test_tags or None`: `None` whenever the resulting set is
+empty, whether the event supplied `None`, an empty set, or tags that were all discarded -/
+def taggerOut (h : Heap) (e : EventOf Ref) (add discard : List Nat) : Option (List Nat) :=
+  if (tagged h e add discard).isEmpty then none else some (tagged h e add discard)
+
 /-- `StreamFailFast.status`: `test_status in (...)` -/
 def fires : Option Status → Bool
   | some s => Generated.Stream.failFast.contains s
@@ -118,9 +126,9 @@ def deliver (n : Nat) : Dec → Heap → Msg → Heap × List (List Got)
   | .copy ts, h, c => deliverL n ts h c
   | .tagger add discard ts, h, .status e =>
       -- a new set object is built; `test_tags or None` hands it on only when it is non-empty
-      match tagged h e add discard with
-      | [] => deliverL n ts h (.status { e with tags := none })
-      | x :: xs => deliverL n ts { h with fresh := h.fresh ++ [x :: xs] } (.status { e with tags := some (.fresh h.fresh.length) })
+      match taggerOut h e add discard with
+      | none => deliverL n ts h (.status { e with tags := none })
+      | some s => deliverL n ts { h with fresh := h.fresh ++ [s] } (.status { e with tags := some (.fresh h.fresh.length) })
   | .tagger _ _ ts, h, c => deliverL n ts h c
   | .stamp t, h, .status e =>
       deliver n t h (.status { e with timestamp := fillNow e.timestamp })
